@@ -327,6 +327,26 @@ def Coll.reserve (cfg : Cfg) (c : Coll) (i capacity : Nat) (env : List (Option N
           | some (p, cur') => (⟨{ c2 with cur := cur' }, .done, ev⟩, some p)
           | none => (⟨c2, .crash, ev⟩, none)     -- `FOONATHAN_MEMORY_ASSERT(mem)`: nullptr is inserted
 
+/-- the bucket is empty: `reserve_memory(pool, capacity)` and `pool.insert(mem, capacity)` of the reserved block -/
+def Coll.refill (cfg : Cfg) (c : Coll) (i dc : Nat) (env : List (Option Nat)) : PRes Coll :=
+  match c.reserve cfg i dc env with
+  | (r, some mem) =>
+    (match r.st.lists[i]? with
+     | some l1 => (match l1.insert cfg mem dc with
+        | .ok l2 => { r with st := r.st.setList i l2 }
+        | .handler k => { r with out := .handler k }
+        | .crash => { r with out := .crash })
+     | none => { r with out := .crash })
+  | (r, none) => r
+
+/-- `pool.allocate()` on bucket `i` -/
+def Coll.takeNode (c : Coll) (i : Nat) (ev : List UpEv) : PRes Coll :=
+  match c.lists[i]? with
+  | some l1 => (match l1.allocate with
+      | some (l2, a) => ⟨c.setList i l2, .ok a, ev⟩
+      | none => ⟨c, .crash, ev⟩)
+  | none => ⟨c, .crash, ev⟩
+
 /-- `allocate_node(node_size)` -/
 def Coll.allocateNode (cfg : Cfg) (c : Coll) (size : Nat) (env : List (Option Nat)) : PRes Coll :=
   if size > c.maxNodeSize then ⟨c, .throws .badNode, []⟩
@@ -334,26 +354,9 @@ def Coll.allocateNode (cfg : Cfg) (c : Coll) (size : Nat) (env : List (Option Na
     let i := c.listIndex size
     match c.lists[i]?, c.defCapacity with
     | some l, some dc0 =>
-      let dc := growCapacity l 64 dc0
-      let step : PRes Coll :=
-        if l.empty then
-          match c.reserve cfg i dc env with
-          | (r, some mem) =>
-            (match r.st.lists[i]? with
-             | some l1 => (match l1.insert cfg mem dc with
-                | .ok l2 => { r with st := r.st.setList i l2 }
-                | .handler k => { r with out := .handler k }
-                | .crash => { r with out := .crash })
-             | none => { r with out := .crash })
-          | (r, none) => r
-        else ⟨c, .done, []⟩
+      let step : PRes Coll := if l.empty then c.refill cfg i (growCapacity l 64 dc0) env else ⟨c, .done, []⟩
       match step.out with
-      | .done =>
-        match step.st.lists[i]? with
-        | some l1 => (match l1.allocate with
-            | some (l2, a) => ⟨step.st.setList i l2, .ok a, step.ev⟩
-            | none => ⟨step.st, .crash, step.ev⟩)
-        | none => ⟨step.st, .crash, step.ev⟩
+      | .done => step.st.takeNode i step.ev
       | _ => step
     | _, _ => ⟨c, .crash, []⟩
 
@@ -524,5 +527,46 @@ def Coll.traitsTryDeallocateArray (cfg : Cfg) (c : Coll) (a count size align : N
 def Coll.destroy (cfg : Cfg) (c : Coll) : List UpEv × Option Int × Option String :=
   let (_, ev, chk) := c.arena.destroy cfg
   (ev, if cfg.leak && c.leak ≠ 0 then some c.leak else none, chk)
+
+/-! ### construction of a collection -/
+
+def sizeofList (kind : String) : Nat :=
+  if kind = "free" then C.sizeof_free_list.toNat else if kind = "ord" then C.sizeof_ordered_list.toNat
+  else C.sizeof_small_list.toNat
+def alignofList (kind : String) : Nat :=
+  if kind = "free" then C.alignof_free_list.toNat else if kind = "ord" then C.alignof_ordered_list.toNat
+  else C.alignof_small_list.toNat
+def minElemOf (kind : String) : Nat :=
+  if kind = "free" then C.free_min_element_size.toNat else if kind = "ord" then C.ordered_min_element_size.toNat
+  else C.small_min_element_size.toNat
+
+/-- list `i` of the array at `arr`: constructed with `size_from_index(i + min_size_index)` -/
+def Coll.mkList (kind : String) (pol : Policy) (arr i : Nat) : AnyList :=
+  let minIdx := minSizeIndex pol (BitVec.ofNat 64 (minElemOf kind))
+  let ns := (pol.sizeFromIndex (BitVec.ofNat 64 i + minIdx)).toNat
+  let at_ := arr + i * sizeofList kind
+  if kind = "free" then .free (FreeList.new ns)
+  else if kind = "ord" then .ord (OrdList.new ns at_ (at_ + 8))
+  else .small (SmallList.new ns at_)
+
+/-- constructor of the collection: block, the array of lists carved from it by `fixed_memory_stack::allocate`,
+lists constructed with `size_from_index(i + min_size_index)`, then the `max_node_size <= def_capacity` check -/
+def Coll.create (cfg : Cfg) (src : Src) (kind : String) (pol : Policy) (arrays : Bool) (maxNode : Nat)
+    (env : List (Option Nat)) : Option Coll × Out × List UpEv :=
+  let a : Arena := { src := src, isCached := false }
+  match a.allocateBlock env with
+  | .envMissing => (none, .envMissing, [])
+  | .fail _ e ev _ => (none, .throws e, ev)
+  | .ok a' b ev _ =>
+    let minE := minElemOf kind
+    let n := (noElements pol (BitVec.ofNat 64 minE) (BitVec.ofNat 64 maxNode)).toNat
+    match fixedAllocate b.base (b.base + b.size) (mul64 n (sizeofList kind)) (alignofList kind) cfg.fence with
+    | none => (none, .crash, ev)        -- `FOONATHAN_MEMORY_ASSERT_MSG(array_, ...)`: null array is used
+    | some (arr, cur') =>
+      let c : Coll := { arena := a', cur := cur', policy := pol, minElem := minE, lists := (List.range n).map (Coll.mkList kind pol arr),
+                        arrays := arrays }
+      match c.defCapacity with
+      | none => (some c, .crash, ev)
+      | some dc => if maxNode > dc then (none, .throws .badNode, ev ++ (c.destroy cfg).1) else (some c, .done, ev)
 
 end MemVerif.Model
